@@ -128,9 +128,16 @@ def make_cases(ctx, n):
             c["y"] = tensor(rng, shp, lambda: dy(rng))
             c["eps"] = rng.choice([1e-15, 1 / 1024, 0.25])
         elif k in ("lcc", "wlcc"):
+            if k == "wlcc":
+                # weighted local means have arbitrary denominators: keep images small and epsilon dyadic so that the
+                # exact rationals of the model stay a few hundred bits
+                sp = [rng.choice([1, 2, 3]) for _ in range(D)] if D == 2 else [rng.choice([1, 2]) for _ in range(D)]
+                if all(s == 1 for s in sp):
+                    sp[-1] = 2
+                shp = [N, C] + sp
             c["x"] = tensor(rng, shp, lambda: dy(rng))
             c["y"] = tensor(rng, shp, lambda: dy(rng))
-            c["eps"] = rng.choice([1e-15, 1 / 1024, 0.25])
+            c["eps"] = rng.choice([1e-15, 1 / 1024, 0.25]) if k == "lcc" else rng.choice([1 / 1024, 0.25])
             c["ks"] = [rng.choice([kk for kk in (1, 3) if kk <= s]) for s in sp]
             r = rng.random()
             if r < 0.06:
